@@ -4,7 +4,8 @@ SPEC = {
     "components": {"1": "MergeIntrospectionSchemas result (canonical JSON) or error",
                    "2": "ConvertVersionedSchemas FieldInfo.Services per (type, field)",
                    "3": "graphql.PrepareQuery verdict of each version's built schema on each generated query",
-                   "4": "ConvertVersionedSchemas verdict (accepted / 'Invalid federation key' / 'not federated') vs fedobjs_ok and fedkeys_ok"},
+                   "4": "ConvertVersionedSchemas verdict (accepted / 'Invalid federation key' / 'not federated') vs fedobjs_ok and fedkeys_ok",
+                   "5": "per service: the intersection of its versions (MergeIntrospectionSchemas of the service alone) or error vs service_schema_r"},
     "corr_name": "Federation.Merge (merge_all, field_services, valid_query) vs federation.MergeIntrospectionSchemas / ConvertVersionedSchemas / graphql.PrepareQuery",
     "coq_modules": ["Federation.Merge", "Federation.MergeProofsKeys"],
     "search": {"n": 6000, "timeout": 600},
